@@ -306,7 +306,7 @@ pub fn run(ctx: &mut Ctx) {
     // tails: MI; SHA256; MI+SHA256; each with/without FP
     let tails: [u8; 6] = [1, 2, 3, 5, 6, 7];
 
-    let n = ctx.n(6_000, 120_000);
+    let n = ctx.n(6_000, 500_000);
     ctx.cases("exhaustive-faults", n, |ctx, case, rng| {
         let Some(kc) = key_case(rng) else {
             ctx.count("key-rejected-by-library");
@@ -341,7 +341,7 @@ pub fn run(ctx: &mut Ctx) {
 
     // larger messages, sampled faults
     let big = GenCfg { max_blob: 1500 };
-    let n = ctx.n(6_000, 120_000);
+    let n = ctx.n(6_000, 500_000);
     ctx.cases("sampled-faults", n, |ctx, case, rng| {
         let Some(kc) = key_case(rng) else { return };
         let mut m = gen::message(rng, 10, &big);
